@@ -177,6 +177,8 @@ def main():
                 fc = flat(c)
                 fc.update(flat(t))
                 for key, val in tables["doc"].get(f, {}).get(v, []):
+                    if key not in fc and "." in key and isinstance(fc.get(key.split(".")[0]), dict) and key.split(".")[1] in fc[key.split(".")[0]]:
+                        fc[key] = fc[key.split(".")[0]][key.split(".")[1]]   # (an entry of a dictionary-valued constant)
                     if key not in fc or not doc_matches(fc[key], val, opts["NMONTHS"], cd):
                         bad("WritesAsDocumented:%s=%s:%s" % (f, v, key), dict(case=case, scale=scale, got=repr(fc.get(key))[:80], want=val))
                 # other families' constants are what they are in the base dictionary
